@@ -480,8 +480,10 @@ def shape_facts():
     # 3. packet_handler: is the best-path override guarded by a mode test?
     try:
         ph = strip_comments(open(os.path.join(REPO, "src/sender/packet_handler.rs")).read())
-        m = re.search(r"select_best_quality_idx\s*\(", ph)
+        m = re.search(r"select_best_quality(_eligible)?_idx\s*\(", ph)
         facts["override_present"] = bool(m)
+        facts["override_uses_eligible_filter"] = bool(m and m.group(1))
+        facts["override_mode_guarded"] = False
         if m:
             ctx = ph[max(0, m.start() - 600):m.start()]
             facts["override_mode_guarded"] = bool(re.search(r"is_classic\(\)|SchedulingMode::Classic|!\s*classic", ctx))
